@@ -113,7 +113,7 @@ def expected(use, v1, v2):
     return {"alone": v1, "local-d": b - v1, "d-local": v1 - b, "d-d-same": 2 * v1 - v1}[use]
 
 
-def run_py(src, args, timeout=120):
+def run_py(src, args, timeout=900):
     env = dict(os.environ, PYTHONWARNINGS="ignore")
     r = subprocess.run([PY, "-W", "ignore", "-c", src, *map(str, args)], capture_output=True, text=True, timeout=timeout, env=env)
     return r
